@@ -9,6 +9,7 @@ and known_findings.txt; the partial theorem excludes exactly that class.
 -/
 import SigModel.Model.Checksum
 import SigModel.Lemmas.C18
+import SigModel.Lemmas.C18b
 
 namespace SigModel.Props.C18
 open SigModel.Wal (Bytes le32 rd32 crc32)
@@ -23,7 +24,7 @@ theorem readAt_intact (crc : Bytes → Nat) (chunks : List Bytes) (a n : Nat)
     (hwf : wfChunks crc chunks) (hn : 1 ≤ n) (ha : a + n ≤ chunks.length) :
     readAt crc (fileOf crc chunks) (((chunks.drop a).take n).flatten.length) (chunkStart chunks a)
       = (((chunks.drop a).take n).flatten, false) := by
-  sorry
+  exact Lemmas.C18.readAt_intact' crc chunks a n hwf hn ha
 
 /-- what the reader would accept at `off`: magic present and the stored checksum matches the bytes it reads -/
 def crcAccident (crc : Bytes → Nat) (f : Bytes) (off : Nat) (orig : Bytes) : Prop :=
@@ -40,7 +41,8 @@ theorem readChunk_corrupt_partial (crc : Bytes → Nat) (chunks : List Bytes) (k
     let f' := (fileOf crc chunks).set i b
     let r := readChunkAt crc f' (chunks[k]!).length (chunkStart chunks k)
     r = Rd.fail ∨ r = Rd.ok (chunks[k]!) ∨ crcAccident crc f' (chunkStart chunks k) (chunks[k]!) := by
-  sorry
+  intro f' r
+  exact Lemmas.C18.readChunk_corrupt_partial' crc chunks k i b hwf hk hguard r rfl
 
 /-- C18.2 full-strength statement (no guard) is false: damaging the magic of the chunk at offset 0
 makes the reader serve the raw header bytes as data, without an error. -/
@@ -50,7 +52,25 @@ theorem legacy_fallback_counterexample :
         let f' := (fileOf crc32 chunks).set i b
         let r := readChunkAt crc32 f' (chunks[k]!).length (chunkStart chunks k)
         r = Rd.fail ∨ r = Rd.ok (chunks[k]!) ∨ crcAccident crc32 f' (chunkStart chunks k) (chunks[k]!)) := by
-  sorry
+  intro h
+  have hwf : wfChunks crc32 [[1, 2, 3]] := by
+    intro c hc
+    simp at hc; subst hc
+    decide +kernel
+  have h' := h [[1, 2, 3]] 0 0 0 hwf (by decide) (by decide) (by decide) (by decide)
+  dsimp only at h'
+  -- the reader returns `.ok` of the first three (damaged) header bytes
+  have hread : readChunkAt crc32 ((fileOf crc32 [[1, 2, 3]]).set 0 0) ([[1, 2, 3]][0]!).length
+      (chunkStart [[1, 2, 3]] 0) = Rd.ok [0, 0x43, 0x65] := by decide +kernel
+  rw [hread] at h'
+  rcases h' with h1 | h2 | ⟨sum, len, _, hl, _, hne⟩
+  · exact absurd h1 (by decide)
+  · exact absurd h2 (by decide)
+  · have hl' : readU32At ((fileOf crc32 [[1, 2, 3]]).set 0 0) (chunkStart [[1, 2, 3]] 0 + 8) = some 3 := by
+      decide +kernel
+    rw [hl'] at hl
+    cases hl
+    exact hne (by decide +kernel)
 
 /-- C18.3 truncation: cut the file anywhere strictly inside chunk `k` (so that chunk `k` is incomplete):
 reading chunk `k` fails or there is a checksum accident; cutting inside the first 4 bytes of the file
@@ -61,17 +81,21 @@ theorem readChunk_truncated (crc : Bytes → Nat) (chunks : List Bytes) (k n : N
     let f' := (fileOf crc chunks).take n
     let r := readChunkAt crc f' (chunks[k]!).length (chunkStart chunks k)
     r = Rd.fail ∨ (∃ d, r = Rd.okEof d ∧ crcAccident crc f' (chunkStart chunks k) (chunks[k]!)) := by
-  sorry
+  intro f' r
+  exact Lemmas.C18.readChunk_truncated' crc chunks k n hwf hk hn r rfl
 
 /-- C18.4 damage in one chunk does not affect reads of other chunks before it (same file) -/
 theorem other_chunks_unaffected (crc : Bytes → Nat) (chunks : List Bytes) (k j i b : Nat)
     (hwf : wfChunks crc chunks) (hk : k < chunks.length) (hj : j < k)
     (hi : chunkStart chunks k ≤ i) (hi2 : i < chunkStart chunks (k + 1)) :
     readChunkAt crc ((fileOf crc chunks).set i b) (chunks[j]!).length (chunkStart chunks j) = Rd.ok (chunks[j]!) := by
-  sorry
+  exact Lemmas.C18.other_chunks_unaffected' crc chunks k j i b hwf hk hj hi
 
 /-- non-vacuity of the guard and hypotheses -/
 example : wfChunks crc32 [[1, 2, 3], [9]] ∧ chunkStart [[1, 2, 3], [9]] 1 = 15 := by
-  sorry
+  refine ⟨?_, by decide⟩
+  intro c hc
+  simp at hc
+  rcases hc with rfl | rfl <;> decide +kernel
 
 end SigModel.Props.C18
